@@ -4,6 +4,7 @@ import (
 	"fmt"
 	"math"
 	"net/url"
+	"reflect"
 	"time"
 
 	"github.com/shiwano/errdef"
@@ -142,6 +143,7 @@ type keyEntry struct {
 	OrFallback func(err error, d any) any
 	WithForms  func(err error, d any) [3]any // WithZero, WithDefault, WithFallback
 	Zero       any
+	StaticType reflect.Type // T of DefineField[T]
 }
 
 func (k keyEntry) stCoq() string {
@@ -161,7 +163,7 @@ func mkKey[T any](name string, ty int) keyEntry {
 		return t
 	}
 	var zero T
-	return keyEntry{Name: name, Ty: ty, Key: ctor.Key(), Zero: zero,
+	return keyEntry{Name: name, Ty: ty, Key: ctor.Key(), Zero: zero, StaticType: reflect.TypeOf((*T)(nil)).Elem(),
 		Opt:        func(v any) errdef.Option { return ctor(conv(v)) },
 		Ext:        func(err error) (any, bool) { v, ok := ext(err); return v, ok },
 		OrZero:     func(err error) any { return ext.OrZero(err) },
@@ -185,12 +187,17 @@ var keyPool = func() []keyEntry {
 		mkKey[P]("p", tyP), mkKey[Q]("q", tyQ), mkKey[[]int]("ints", tyIntSlice),
 		mkKey[map[string]int]("msi", tyMapSI), mkKey[[2]int]("arr", tyArr2),
 		mkKey[int]("s", tyInt), mkKey[string]("n", tyString), mkKey[R]("r", tyR),
+		mkKey[*int]("pn", 120), mkKey[*string]("ps", 121), mkKey[*P]("pp", 122), mkKey[[3]int]("arr3", 123), mkKey[*MyInt]("pmi", 124),
+		mkKey[uint64]("u64b", tyUint64), mkKey[int64]("i64b", tyInt64), mkKey[float64]("n", tyFloat64),
 	}
 	for i := range ks {
 		ks[i].ID = i
 	}
 	return ks
 }()
+
+// nBaseKeys: keys usable with valuePool values (C14, P1); later entries exist for the unmarshal checks only
+const nBaseKeys = 32
 
 // valuesFor lists the pool indexes usable as a stored value of key k.
 func valuesFor(k keyEntry, pool []gval) []int {
